@@ -288,6 +288,30 @@ def run(chk):
              "{429,502,503,504} retry with the exponential sleep while budget is left and raise a Rally error when exhausted; authentication, authorization, other API or transport "
              "errors and non-retryable bulk item errors raise a Rally error at once; no arm returns or falls out of the loop silently", 30,
              "a transient fault aborts the race, or a permanent fault is retried ten times / swallowed")
+    # the guard classifies what the client raises: every non-2xx answer must leave RallySyncElasticsearch.perform_request as an API error (HTTP_EXCEPTIONS / ApiError) — also when
+    # the body is no JSON object (an HTML page of a proxy, the empty body of a HEAD request): the error-detail extraction may only touch the body as a dict behind isinstance(dict)
+    from sa import pat as _p17
+    syn = repo.module("esrally/client/synchronous.py")
+    chk.use(syn)
+    prq = syn.methods(syn.cls("RallySyncElasticsearch")).get("perform_request")
+    if prq is None:
+        raise AnchorMissing("RallySyncElasticsearch.perform_request")
+    unp_ = [n for n in walk_body(prq) if isinstance(n, ast.Assign) and isinstance(n.targets[0], ast.Tuple) and len(n.targets[0].elts) == 2 and isinstance(n.value, ast.Call)
+            and u(n.value.func) == "self.transport.perform_request"]
+    if not unp_:
+        raise AnchorMissing("meta, body = self.transport.perform_request(...) in the synchronous client")
+    bodyv = unp_[0].targets[0].elts[1].id
+    araise = [n for n in walk_body(prq) if isinstance(n, ast.Raise) and n.exc is not None and "HTTP_EXCEPTIONS" in u(n.exc) and n.lineno > unp_[0].lineno]
+    chk.ob("O17.4", "sync client: a non-2xx answer is raised as HTTP_EXCEPTIONS.get(status, ApiError)", len(araise) == 1, araise[0] if araise else prq, "")
+    uses = [x for x in walk_body(prq) if isinstance(x, (ast.Attribute, ast.Subscript)) and isinstance(x.value, ast.Name) and x.value.id == bodyv and araise and unp_[0].lineno < x.lineno < araise[0].lineno]
+    for x in uses:
+        tr_ = source.enclosing(x, ast.Try)
+        caught = {nm.split(".")[-1] for h in (tr_.handlers if tr_ is not None else []) for nm in ([dotted(e_) or "" for e_ in (h.type.elts if isinstance(h.type, ast.Tuple) else [h.type])] if h.type is not None else ["BaseException"])}
+        ok = _p17.guarded(x, f"isinstance({bodyv}, dict)") is not None or bool(caught & {"AttributeError", "Exception", "BaseException"})
+        chk.ob("O17.4", f"sync client: `{short(x, 30)}` touches the error body as a dict only behind isinstance(dict)", ok, x,
+               "" if ok else f"a non-JSON error body raises AttributeError here (handlers cover only {sorted(caught)}): the error escapes as a bare Python error that the guard neither retries nor converts",
+               key=f"esrally/client/synchronous.py:RallySyncElasticsearch.perform_request:body-as-dict:{short(x, 30)}")
+
     init = em.get("__init__")
     sets = [n for n in walk_body(init) if isinstance(n, ast.Assign) and any(is_self_attr(t, "retryable_status_codes") for t in n.targets)]
     ok = len(sets) == 1 and isinstance(sets[0].value, (ast.List, ast.Set, ast.Tuple)) and all(isinstance(e, ast.Constant) for e in sets[0].value.elts) and {e.value for e in sets[0].value.elts} == RETRYABLE
@@ -315,11 +339,15 @@ def run(chk):
                 return h, names
         return None, None
 
+    LOGLEVEL = {"debug": True}  # the log level is a FREE variable of the classification: every case is decided for both values and must not depend on it
+
     def interpret(h, status, c):
         ev = h.name
 
         def atom(n, env):
             t = u(n)
+            if isinstance(n, ast.Call) and last_attr(n.func) in ("isEnabledFor", "isDebugEnabled"):
+                return LOGLEVEL["debug"]
             if cmp_fn(n) is not None:
                 return cmp_fn(n)(c)
             if ev and t in (f"{ev}.status_code in self.retryable_status_codes",):
@@ -376,9 +404,19 @@ def run(chk):
                 chk.ob("O17.4", inst, False, T, "no handler matches: the library exception escapes unconverted (not a Rally error)", key=key)
                 continue
             try:
+                LOGLEVEL["debug"] = True
                 out = interpret(h, status, c)
+                LOGLEVEL["debug"] = False
+                out_q = interpret(h, status, c)
+                LOGLEVEL["debug"] = True
             except (Unsupported, UnknownAtom) as e:
+                LOGLEVEL["debug"] = True
                 chk.unknown("O17.4", f"handler `except {', '.join(names)}` is not a decision over (counter, status class): {e}", h)
+                continue
+            sl_q = [e for e in out_q.effects if isinstance(e, ast.Call) and dotted(e.func) == "time.sleep"]
+            if (out_q.kind, len(sl_q)) != (out.kind, len([e for e in out.effects if isinstance(e, ast.Call) and dotted(e.func) == "time.sleep"])):
+                chk.ob("O17.4", inst, False, h, f"attempt {c}: the outcome depends on the log level: with DEBUG enabled {out.text()[:40]} / {len([e for e in out.effects if isinstance(e, ast.Call) and dotted(e.func) == 'time.sleep'])} sleep(s), "
+                       f"otherwise {out_q.text()[:40]} / {len(sl_q)} sleep(s) — at the shipped INFO level the retries fire without the pause", key=key)
                 continue
             sleeps = [e for e in out.effects if isinstance(e, ast.Call) and dotted(e.func) == "time.sleep"]
             if kind == "transient" and budget:
